@@ -92,12 +92,13 @@ func flowLen(op Op) int {
 // first when the connection window is short). It only classifies cases and
 // steers the generator; the oracle does not use it.
 type ref struct {
-	conn, iws int
-	win       []int
-	queue     [][]int
-	sent      []bool // a DATA frame has been sent on the stream
-	reset     []bool // the receiver has reset the stream
-	set       map[string]bool
+	conn, iws                 int
+	win                       []int
+	queue                     [][]int
+	lastStreamGrantStillShort bool
+	sent                      []bool // a DATA frame has been sent on the stream
+	reset                     []bool // the receiver has reset the stream
+	set                       map[string]bool
 }
 
 func newRef(streams int) *ref {
@@ -202,11 +203,16 @@ func (r *ref) apply(op Op) {
 			qlen = len(r.queue[before])
 		}
 		if op.S < 0 {
+			if r.lastStreamGrantStillShort {
+				r.set["stream-grant-then-connection-grant"] = true
+			}
 			r.conn += op.N
 			r.set["connection-window-update"] = true
 		} else {
 			r.win[op.S] += op.N
 		}
+		// a stream grant that left its stream waiting for the connection window only
+		r.lastStreamGrantStillShort = op.S >= 0 && len(r.queue[op.S]) > 0 && r.queue[op.S][0] <= r.win[op.S] && r.queue[op.S][0] > r.conn
 		r.drain()
 		if before >= 0 && len(r.queue[before]) < qlen {
 			r.set["released-by-window-update"] = true
@@ -472,6 +478,16 @@ func genCase(t *rapid.T) Case {
 					op.N = 1
 				}
 			}
+			if held >= 0 && !byConn && op.S == held && len(model.queue[held]) > 0 && model.queue[held][0] > model.conn && rapid.Bool().Draw(t, "then_connection") {
+				// the stream lacks room in its own window AND in the connection's: the stream's
+				// grant comes first, the connection's right behind it
+				model.apply(op)
+				c.Ops = append(c.Ops, op)
+				op = Op{K: "wu", Pad: -1, S: -1, N: model.queue[held][0] - model.conn}
+				if len(model.queue[held]) == 0 || op.N < 1 {
+					op.N = 1
+				}
+			}
 			if op.S < 0 && op.N > 1<<31-1-model.conn {
 				op.N = 1<<31 - 1 - model.conn // (the executor clamps again, against what really arrived)
 				if op.N < 1 {
@@ -680,6 +696,8 @@ func shapeOf(c Case, upto int) string {
 	}
 	l := labels(Case{Reverse: c.Reverse, Lazy: c.Lazy, Streams: c.Streams, Ops: c.Ops[:upto]})
 	switch {
+	case l["stream-grant-then-connection-grant"]:
+		return "after-stream-grant-then-connection-grant"
 	case l["receiver-sent-goaway"]:
 		return "after-the-receivers-goaway"
 	case l["connection-window-at-its-maximum"]:
@@ -1078,6 +1096,55 @@ func TestManyStreamIDs(t *testing.T) {
 	})
 }
 
+// propBothWindows: a stream that lacks room in its own window and in the connection's gets
+// both, in either order.
+var propBothWindows = &kit.Prop[Case]{
+	ID: "C09", Name: "both-windows",
+	Rule: "ALL combinations of: a stream uses up its own window and the connection's at the same time (65 535 octets delivered) and holds 1 / 16 385 more octets - on the only stream, or on the second of two while the first has data waiting for the connection window as well -; the receiver then grants stream credit and connection credit, in either order, exactly what is lacking or plenty, and nothing else; either direction; oracle as for histories; non-trivial = every case",
+	Run:  run, Classes: classes,
+}
+
+func TestBothWindows(t *testing.T) {
+	if kit.Race() {
+		t.Skip("sequential enumeration")
+	}
+	propBothWindows.Enumerate(t, func(yield func(Case) bool) {
+		for _, rev := range []bool{false, true} {
+			for _, extra := range []int{0, 16384} {
+				for _, streamFirst := range []bool{true, false} {
+					for _, plenty := range []bool{false, true} {
+						for _, streams := range []int{1, 2} {
+							held := 1 + extra
+							st := streams - 1
+							ops := []Op{{K: "send", Pad: -1, S: st, N: 16384}, {K: "send", Pad: -1, S: st, N: 16384}, {K: "send", Pad: -1, S: st, N: 16384}, {K: "send", Pad: -1, S: st, N: 16384}}
+							if extra > 0 {
+								ops = append(ops, Op{K: "send", Pad: -1, S: st, N: extra})
+							}
+							if streams == 2 {
+								ops = append(ops, Op{K: "send", Pad: -1, S: 0, N: 1000}) // waits for the connection window only
+							}
+							sw, cw := held, held
+							if streams == 2 {
+								cw += 1000
+							}
+							if plenty {
+								sw, cw = 1<<20, 1<<20
+							}
+							grants := []Op{{K: "wu", Pad: -1, S: st, N: sw}, {K: "wu", Pad: -1, S: -1, N: cw}}
+							if !streamFirst {
+								grants[0], grants[1] = grants[1], grants[0]
+							}
+							if !yield(Case{Reverse: rev, Streams: streams, Ops: append(ops, grants...)}) {
+								return
+							}
+						}
+					}
+				}
+			}
+		}
+	})
+}
+
 func TestReplay(t *testing.T) {
-	kit.Replay(t, propHistories, propFrameSize, propEarlyGrant, propBurst, propFit, propManyIDs)
+	kit.Replay(t, propBothWindows, propHistories, propFrameSize, propEarlyGrant, propBurst, propFit, propManyIDs)
 }
